@@ -484,7 +484,11 @@ func c15Wire(e *Env, c *C15Case) {
 		}
 		return &wireFault{Kind: "measure", measure: &bodyLen}
 	}
+	var r0, r1 runtime.MemStats
+	runtime.ReadMemStats(&r0)
 	ref := r.run1(c.Cmd, "ref")
+	runtime.ReadMemStats(&r1)
+	refAlloc := int64(r1.TotalAlloc - r0.TotalAlloc) // what the whole command allocates when nothing is damaged
 	if ref.aborted || len(ref.panics) > 0 || bodyLen < 0 {
 		e.Skip("reference-request-failed")
 		return
@@ -523,9 +527,14 @@ func c15Wire(e *Env, c *C15Case) {
 			break
 		}
 		alloc := int64(m1.TotalAlloc - m0.TotalAlloc)
-		// the whole command (client, server, HTTP machinery) is inside the
-		// measurement: allow a fixed 4 MiB for it
-		bound := int64(4<<20) + 64*(bodyLen+4096)
+		// the whole command (client, server, HTTP machinery, the local side of
+		// a diff) is inside the measurement: allow what the undamaged command
+		// allocated twice over, at least 4 MiB
+		base := 2 * refAlloc
+		if base < 4<<20 {
+			base = 4 << 20
+		}
+		bound := base + 64*(bodyLen+4096)
 		if alloc > bound {
 			e.Violate("C15.bounded-allocation", "response of %s damaged on the wire (%s): decoding allocated %d bytes for a body of %d bytes (bound %d)", c.Cmd.Kind, dm, alloc, bodyLen, bound)
 			break
